@@ -1,5 +1,5 @@
 """Properties C08.. (codecs, totality, schema): same machinery as props.py"""
-import hashlib, json, os, re
+import hashlib, json, os, re, time
 
 import pretty, vlib
 from vlib import Broken, log
@@ -464,4 +464,129 @@ def run_C13(ctx):
                        "names are related to their characters by spelling tables computed by harness and checker"]
     q = ctx.quick
     add_m3(ctx, "vjson", "roundtrips", "vjson", 6000 if q else 200000)
+    return vlib.finish(ctx, confirm_all)
+
+
+# ====================================================================== C10 totality
+
+def _tj_text(x):
+    if not isinstance(x, dict):
+        return "?"
+    if "s" in x:
+        return json.dumps(cps(x["s"]))
+    if "n" in x:
+        return str(pretty.num(x["n"]))
+    if "b" in x:
+        return "true" if x["b"] else "false"
+    if "a" in x:
+        return "[" + ",".join(_tj_text(y) for y in x["a"] or []) + "]"
+    if "o" in x:
+        return "{" + ",".join(json.dumps(cps(m["k"])) + ":" + _tj_text(m["v"]) for m in x["o"] or []) + "}"
+    return "null"
+
+
+def _bad_stage(obs):
+    for r in (obs or {}).get("runs") or []:
+        for s in r.get("stages") or []:
+            if s.get("outcome") not in ("value", "error"):
+                return s
+    return {}
+
+
+def describe_total(ev, obs, entry):
+    s = _bad_stage(obs if isinstance(obs, dict) else {})
+    op = ev.get("op")
+    if op == "total":
+        doc = _tj_text(ev.get("doc"))
+    elif op == "totalbytes":
+        doc = bytes(ev.get("bytes") or []).decode("utf-8", "replace")
+    elif op == "totaltext":
+        doc = " ".join(tok_text2(t) for t in ev.get("tokens") or [])
+    else:
+        doc = "%s nested %s deep" % (ev.get("form"), ev.get("k"))
+    return "total %s `%s` => stage %s: %s %s" % (ev.get("kind") or op, doc[:700], s.get("stage"), s.get("outcome"), (s.get("detail") or "")[:200])
+
+
+def tok_text2(t):
+    if t.get("t") in ("id", "kw", "op"):
+        return t.get("s", "")
+    if t.get("t") == "int":
+        return "".join(str(d) for d in t.get("d") or [])
+    return '"' + cps(t.get("raw")) + '"'
+
+
+for _k in ("total", "totaltext", "totaldepth"):
+    KINDS[_k] = dict(module=None, describe=describe_total)
+KINDS["totalbytes"] = dict(module="Trace_Total", shrink=None, describe=describe_total)
+
+
+def replay_cases(ctx, name, kind, cases_path, min_cases):
+    d = os.path.dirname(cases_path)
+    diffs, stats = os.path.join(d, name + ".diffs.ndjson"), os.path.join(d, name + ".stats.json")
+    vlib.harness(["replay", "-in", cases_path, "-out", diffs, "-stats", stats], timeout=7200)
+    st = json.load(open(stats))
+    if st["cases"] < min_cases:
+        raise Broken("%s: only %d cases replayed (expected >= %d)" % (name, st["cases"], min_cases))
+    ctx.cov["traces_validated_against_impl"] += st["cases"]
+    ctx.cov["evaluations"] += st["cases"]
+    ctx.cov["distinct_nontrivial"] += st["distinct"]
+    for s in st.get("samples", [])[:1]:
+        ctx.sample(dict(stage=name, kind="case executed by the real code", **s))
+    ctx.cov["stages"].append(dict(stage=name, cases=st["cases"], diffs=st["diffs"]))
+    log("%s: replayed %d cases, %d differ" % (name, st["cases"], st["diffs"]))
+    for dd in vlib.read_ndjson(diffs):
+        ctx.candidates.append(dict(kind=kind, stage=name, event=dd["case"]))
+    return st
+
+
+@prop("C10")
+def run_C10(ctx):
+    ctx.level = "exploration"
+    ctx.rule = ("spec/Totality.tla states the property (every stage of every run ends in a value or an error) and defines the input "
+                "families. (a) MC_Totality reads seed documents recorded from the real encoders (policy, policy-set, value, entity, "
+                "entity-map and schema JSON) and emits EVERY single-position mutation of each (subtree replaced by null / {} / [] / \"\" / "
+                "0 / true, every element and member deleted, every member duplicated or renamed under an operator name or escape word); "
+                "the harness feeds each to every decoder of its kind and every accepted value on to MarshalCedar / MarshalJSON / Encoder "
+                "and cedar.Authorize, each stage under recover() and a 10 s deadline. (b) the token-mutation universe of C07 (every "
+                "single-token deletion / duplication / replacement / swap of the representative policies, the named ungrammatical "
+                "families) through Policy / PolicyList / PolicySet-from-bytes / Decoder. (c) nesting families (parentheses, !, -, if, "
+                "sets, records, attribute chains, && chains, JSON arrays / records / Set / ! nodes, schema Set<> and record types) at "
+                "depths 10^3 and 10^4 (thorough: 10^5), each in a child process because a Go stack overflow is fatal. (d) every truncation "
+                "(thorough; every 7th offset quick) and random byte edits of valid documents of every kind incl. entity-UID text, "
+                "schema text and request JSON, validated by Trace_Total. evaluations = inputs run; distinct_nontrivial = distinct inputs.")
+    ctx.assumptions = ["arbitrary byte strings cannot be enumerated: the specification contributes structured families and the statement",
+                       "'bounded time' is a 10 s deadline per stage (600 s per nesting case: the text parser's cost grows faster than linearly with "
+                       "the nesting depth, which is slow, not a hang)",
+                       "disagreement with the accept / reject verdict of the specification is reported under C07 / C09 / C13, not here"]
+    q = ctx.quick
+    # (a) every single-position mutation of recorded seed documents
+    d = ctx.dir("mutants.gen")
+    seeds = os.path.join(d, "seeds.in")
+    vlib.harness(["seeds", "-seed", str(ctx.seed), "-n", str(36 if q else 240), "-out", seeds])
+    t = time.time()
+    p = vlib.tlc_start(d, "MC_Totality", GEN_CFG, ["mc/MC_Totality.tla"], 1, (), {"seeds.ndjson": seeds}, 7200)
+    res = vlib.tlc_finish(p, d)
+    ctx.cov["states"] += res["distinct"]
+    ctx.cov["transitions"] += res["generated"]
+    ctx.cov["stages"].append(dict(stage="mutants.gen", module="MC_Totality", states=res["distinct"], wall_s=round(time.time() - t, 1)))
+    replay_cases(ctx, "mutants", "total", os.path.join(d, "cases.ndjson"), 2000)
+    # (b) token mutations
+    res = vlib.tlc(ctx, "tokens.gen", "MC_Syntax", GEN_CFG + SYNTAX_CONSTS + 'CONSTANT Mode = "mutants"\n', ["mc/MC_Syntax.tla"], 1, (), None, 7200)
+    cases = os.path.join(res["dir"], "cases.ndjson")
+    tcases = os.path.join(res["dir"], "totaltext.ndjson")
+    with open(tcases, "w") as f:
+        for k, c in enumerate(vlib.read_ndjson(cases)):
+            if q and k % 3:
+                continue
+            f.write(json.dumps(dict(op="totaltext", tokens=c["tokens"])) + "\n")
+    replay_cases(ctx, "tokens", "totaltext", tcases, 5000)
+    # (c) nesting
+    forms = ["parens", "not", "neg", "if", "set", "record", "access", "and", "jsonarray", "jsonrecord", "jsonnot", "jsonset", "schemaset", "schemarecord"]
+    depths = [1000, 10000] if q else [1000, 10000, 100000]
+    dd = ctx.dir("depth")
+    dcases = os.path.join(dd, "cases.ndjson")
+    vlib.write_ndjson(dcases, [dict(op="totaldepth", form=f, k=k) for f in forms for k in depths])
+    replay_cases(ctx, "nesting", "totaldepth", dcases, len(forms))
+    # (d) truncations and byte edits
+    add_m3(ctx, "totalbytes", "bytes", "totalbytes", 6000 if q else 120000, params={"step": 7 if q else 1}, shards=(2 if q else vlib.MAX_SHARDS))
     return vlib.finish(ctx, confirm_all)
